@@ -8,10 +8,10 @@ TECH_E = "static analysis: effect/ownership rules over the type-checked program 
 NOTE = "Trusted: rustc (MIR at mir-opt-level=0, const evaluation), the driver in /verif/driver, Python big integers. x86_64 only."
 
 CHECKS = {
- "C01": ("other", "5.1", TECH_K,
-   "Partial. Decides necessary conditions of correct f64 rounding that are visible statically: every Float-for-f64 constant equals its IEEE-derived definition or lies on the necessary side of its bound, and every power-table entry equals its definition, in each configuration. Does NOT decide that the rounding algorithms are correct."),
- "C02": ("other", "5.2", TECH_K + "; mono call-graph rule for single rounding",
-   "Partial. Same constant/table rules for f32, plus the single-rounding structure: no f64 value, float-to-float cast or f64-instantiated function is reachable from parse_float::<f32>. Does NOT decide the algorithms."),
+ "C01": ("other", "5.1", TECH_K + "; abstract interpretation of the f64 instances of the moderate stage and of round (result-shape post-conditions)",
+   "Partial. Decides necessary conditions of correct f64 rounding that are visible statically: every Float-for-f64 constant equals its IEEE-derived definition or lies on the necessary side of its bound, every power-table entry equals its definition, in each configuration; every exit of the moderate stage is declined-and-normalised or definite with fields that pack without touching the exponent field, early zero/infinity exits are implied by their path's exponent bound, round() yields packable fields (never NaN). Does NOT decide that the rounding algorithms are correct."),
+ "C02": ("other", "5.2", TECH_K + "; mono call-graph rule for single rounding; abstract interpretation of the f32 instances of the moderate stage and of round",
+   "Partial. Same constant/table rules and result-shape post-conditions for f32, plus the single-rounding structure: no f64 value, float-to-float cast or f64-instantiated function is reachable from parse_float::<f32>. Does NOT decide the algorithms."),
  "C05": ("other", "5.5", TECH_K + "; abstract interpretation of both moderate stages for the early-out post-condition",
    "Partial. Constants shared by name agree across configurations; configuration-specific tables and cut-offs each meet their definition; the early zero/infinity exits of Eisel-Lemire and Bellerophon are each implied by the exponent bound of their path (so the two siblings agree on them). Bit-equality of different algorithms is NOT decided."),
  "C06": ("other", "5.6", TECH_K,
@@ -19,7 +19,7 @@ CHECKS = {
  "C07": ("other", "5.7", TECH_K,
    "Partial. Decimal cut-offs imply zero/infinity for both moderate stages. Subnormal rounding results are NOT decided."),
  "C11": ("other", "5.11", TECH_K + "; abstract interpretation of the monomorphic MIR of the stage (carry-test rule, early-out post-conditions)",
-   "Partial. Tie-window bounds, table coverage and table contents; every ordering test between a wrapping 64-bit sum and one of its addends in the Eisel-Lemire product is equivalent to the carry; every early zero/infinity exit of the stage is implied by the exponent bound of its path. That a definite answer is correctly rounded is NOT decided."),
+   "Partial. Tie-window bounds, table coverage and table contents; every ordering test between a wrapping 64-bit sum and one of its addends in the Eisel-Lemire product is equivalent to the carry; every exit of the stage is either declined with a normalised significand or definite with fields that pack without touching the exponent field (sentinel protocol); every early zero/infinity exit is implied by the exponent bound of its path. That a definite answer is correctly rounded is NOT decided."),
  "C12": ("other", "5.12", TECH_E,
    "Partial. No result of a fallible library call is dropped unread (MIR def-use, all configurations); 5^135 and 5^i constants exact. Exactness of carry chains is NOT decided."),
  "C14": ("proof", "5.14", "static analysis: compiler-evaluated constants checked exhaustively against definitions (no execution of the parser); abstract interpretation for the on-demand integer powers",
@@ -54,7 +54,7 @@ CHECKS.update({
  "C12": ("other", "5.12", TECH_E + "; " + TECH_A,
    "Partial. Failure discipline (no fallible result dropped unread), no wrapping_* limb arithmetic, every non-wrapping operator in bigint.rs/stackvec.rs proven overflow-free and every narrowing cast value-preserving or an audited half of the widening idiom (modular, under the vector invariant), 5^135 / 5^i constants exact. Exactness of carry chains is NOT decided."),
 })
-E4P = ("C04", "C05", "C06", "C07", "C08", "C11", "C12", "C13", "C17", "C18", "C19")
+E4P = ("C01", "C02", "C04", "C05", "C06", "C07", "C08", "C11", "C12", "C13", "C14", "C17", "C18", "C19")
 NA = [
  ("C03", "round trip is a numerical corollary of C01/C02 on three input families; it has no code of its own and no clause whose truth is in the shape of the code"),
  ("C09", "monotonicity relates the numerical results of two runs through different algorithms; no structural clause, and per-path correct rounding is not statically decidable here"),
